@@ -200,6 +200,9 @@ func (c *AbstractTokenizer) ReadNextToken() *Token {
 		verifLoopHook(c.Scanner, &verifIteration)
 		// A token skipped by the previous iteration must not be seen again
 		token = nil
+		// Tokens re-created below report their own position, not the one before skipped tokens
+		line = c.Scanner.PeekLine()
+		column = c.Scanner.PeekColumn()
 
 		// Read character
 		nextChar := c.Scanner.Peek()
